@@ -406,7 +406,12 @@ class Loader:
                          obj.get('max_utilization'))
 
             trait_list = obj.get('traits', [])
-            traitz, _ = traits.encode(self.trait_codes, trait_list)
+            # A trait the cell does not know can not be offered by any
+            # server: keep the requirement (as 'invalid') instead of
+            # dropping it, same as for the traits of an app.
+            traitz, _ = traits.encode(
+                self.trait_codes, trait_list, use_invalid=True
+            )
             alloc.set_traits(traitz)
 
             for assignment in obj.get('assignments', []):
